@@ -6,10 +6,10 @@ from harness import common
 ID = "C14"
 BOUNDS = {
     "quick": "DilutionPlan(xmin, xmax, R, C, stock, mode='linear', vmax, min_transfer) with xmin, xmax, min_transfer symbolic reals (0 < xmin < xmax <= stock, "
-             "1 <= min_transfer <= vmax), (R, C) in {(1,2), (1,3), (2,2)}, vmax in {6, (6,8,..) per column}, stock in {1, 2.5}; the integer results of round/ceil "
+             "1 <= min_transfer <= vmax), (R, C) in {(1,2), (1,3), (1,4), (2,2)}, vmax in {6, (6,8,..) per column}, stock in {1, 2.5}; the integer results of round/ceil "
              "are concretised (0..vmax+2), so every path is one concrete plan and the solver decides the region of (xmin, xmax, min_transfer) that yields it; "
              "each plan is then executed with to_worklist on both devices on large labware; mode='log' and invalid modes as concrete cases",
-    "thorough": "(R, C) up to (2,3) and (1,4), vmax in {6, 10}, worklist max_volume below vmax (splitting), destination plate, mixing parameters",
+    "thorough": "(R, C) up to (2,3) and (1,5), vmax in {6, 10}, worklist max_volume below vmax (splitting), destination plate, mixing parameters",
 }
 OUTSIDE = "R > 2, C > 4, vmax > 10; log mode with symbolic limits (numpy.exp/log are C code: only concrete representatives are executed); float rounding inside numpy.round/ceil"
 ASSUMPTIONS = ["numpy.round / numpy.ceil inside robotools.utils are wrapped so that their integer results are concretised (bounded fork)",
@@ -18,12 +18,12 @@ ASSUMPTIONS = ["numpy.round / numpy.ceil inside robotools.utils are wrapped so t
 
 def shards(tier):
     out = []
-    rcs = [(1, 2), (1, 3), (2, 2)] + ([(2, 3), (1, 4)] if tier == "thorough" else [])
+    rcs = [(1, 2), (1, 3), (2, 2), (1, 4)] + ([(2, 3), (1, 5)] if tier == "thorough" else [])
     for R, C in rcs:
         for vmax in ([6.0, "percol"] if tier == "quick" else [6.0, 10.0, "percol"]):
             for stock in (1.0, 2.5):
                 out.append(dict(part="plan", R=R, C=C, vmax=vmax, stock=stock))
-    out.append(dict(part="concrete"))
+    out.append(dict(part="concrete", concrete=True))
     return out
 
 
